@@ -231,8 +231,10 @@ class ZMQEventLoop(EventLoop):
         return True
 
     def _entering_idle(self) -> None:
-        for callback in list(self._idle_callbacks.values()):
-            callback()
+        for handle, callback in list(self._idle_callbacks.items()):
+            # an idle callback may add or remove idle callbacks (itself included)
+            if handle in self._idle_callbacks:
+                callback()
 
     def run(self) -> None:
         """
